@@ -18,7 +18,7 @@ deriving DecidableEq, Repr, Inhabited
 structure FSI (σ : Type) where
   call : σ → Call → σ × Except Err Ret
   hread : σ → Handle → Except Err String
-  hwrite : σ → Handle → String → σ × Except Err Unit
+  hwrite : σ → Handle → Nat → String → σ × Except Err Unit
   hstat : σ → Handle → Except Err Info
   hreaddirnames : σ → Handle → Except Err (List Name)
 
@@ -98,8 +98,19 @@ def volumeFS {σ} (inner : FSI σ) : FSI σ := layer VolumeFS.translate volumePo
 
 /-! ### Walk (walk.go) -/
 
-/-- `readDirNames`: Open, Readdirnames(-1), Close, sort -/
-def readDirNames {σ} (fs : FSI σ) (s : σ) (dirname : Path) : σ × Except Err (List Name) :=
+/-- the two filesystem accesses `Walk` performs, over an arbitrary state -/
+structure WalkOps (σ : Type) where
+  lstat : σ → Path → σ × Except Err Info
+  /-- `readDirNames`: Open, Readdirnames(-1), Close, sort -/
+  readDirNames : σ → Path → σ × Except Err (List Name)
+
+def fsiLstat {σ} (fs : FSI σ) (s : σ) (p : Path) : σ × Except Err Info :=
+  match fs.call s (.lstat p) with
+  | (s1, .error e) => (s1, .error e)
+  | (s1, .ok (.info i)) => (s1, .ok i)
+  | (s1, .ok _) => (s1, .error .other)
+
+def fsiReadDirNames {σ} (fs : FSI σ) (s : σ) (dirname : Path) : σ × Except Err (List Name) :=
   match fs.call s (.open_ dirname) with
   | (s1, .error e) => (s1, .error e)
   | (s1, .ok (.handle h)) =>
@@ -108,12 +119,14 @@ def readDirNames {σ} (fs : FSI σ) (s : σ) (dirname : Path) : σ × Except Err
      | .ok names => (s1, .ok (sortStrings names)))
   | (s1, .ok _) => (s1, .error .other)
 
+def fsiWalkOps {σ} (fs : FSI σ) : WalkOps σ := ⟨fsiLstat fs, fsiReadDirNames fs⟩
+
 /-- What a `filepath.WalkFunc` returns. (`SkipDir` is not used by any caller in the repo.) -/
 abbrev WalkFn (σ α : Type) := σ → α → Path → Option Info → Option Err → (σ × α) × Option Err
 
 mutual
 /-- `walk(fs, path, info, walkFn)`; `fuel` bounds the directory depth. -/
-def walkRec {σ α} (fs : FSI σ) (fn : WalkFn σ α) : Nat → σ → α → Path → Info → (σ × α) × Option Err
+def walkRec {σ α} (ops : WalkOps σ) (fn : WalkFn σ α) : Nat → σ → α → Path → Info → (σ × α) × Option Err
   | 0, s, a, _, _ => ((s, a), some .loop)
   | fuel + 1, s, a, path, info =>
     match fn s a path (some info) none with
@@ -121,33 +134,31 @@ def walkRec {σ α} (fs : FSI σ) (fn : WalkFn σ α) : Nat → σ → α → Pa
     | ((s1, a1), none) =>
       if !info.isDir then ((s1, a1), none)
       else
-        match readDirNames fs s1 path with
+        match ops.readDirNames s1 path with
         | (s2, .error e) => fn s2 a1 path (some info) (some e)
-        | (s2, .ok names) => walkNames fs fn fuel s2 a1 path names
+        | (s2, .ok names) => walkNames ops fn fuel s2 a1 path names
 
-def walkNames {σ α} (fs : FSI σ) (fn : WalkFn σ α) : Nat → σ → α → Path → List Name → (σ × α) × Option Err
+def walkNames {σ α} (ops : WalkOps σ) (fn : WalkFn σ α) : Nat → σ → α → Path → List Name → (σ × α) × Option Err
   | _, s, a, _, [] => ((s, a), none)
   | fuel, s, a, path, name :: rest =>
     let filename := join path name
-    match fs.call s (.lstat filename) with
+    match ops.lstat s filename with
     | (s1, .error e) =>
       (match fn s1 a filename none (some e) with
        | (sa, some e') => (sa, some e')
-       | ((s2, a2), none) => walkNames fs fn fuel s2 a2 path rest)
-    | (s1, .ok (.info fi)) =>
-      (match walkRec fs fn fuel s1 a filename fi with
+       | ((s2, a2), none) => walkNames ops fn fuel s2 a2 path rest)
+    | (s1, .ok fi) =>
+      (match walkRec ops fn fuel s1 a filename fi with
        | (sa, some e) => (sa, some e)
-       | ((s2, a2), none) => walkNames fs fn fuel s2 a2 path rest)
-    | (s1, .ok _) => ((s1, a), some .other)
+       | ((s2, a2), none) => walkNames ops fn fuel s2 a2 path rest)
 end
 
 /-- `Walk(fsys, root, walkFn)` -/
-def walkTree {σ α} (fs : FSI σ) (fn : WalkFn σ α) (fuel : Nat) (s : σ) (a : α) (root : Path) :
+def walkTree {σ α} (ops : WalkOps σ) (fn : WalkFn σ α) (fuel : Nat) (s : σ) (a : α) (root : Path) :
     (σ × α) × Option Err :=
-  match fs.call s (.lstat root) with
+  match ops.lstat s root with
   | (s1, .error e) => fn s1 a root none (some e)
-  | (s1, .ok (.info info)) => walkRec fs fn fuel s1 a root info
-  | (s1, .ok _) => ((s1, a), some .other)
+  | (s1, .ok info) => walkRec ops fn fuel s1 a root info
 
 /-! ### HiddenFS as a layer -/
 
@@ -216,7 +227,7 @@ def hiddenRemoveAll {σ} (hs : List Path) (inner : FSI σ) (fuel : Nat) (s : σ)
          | (s2, .error e) => (s2, .error e)
          | (s2, .ok _) => (s2, .ok ()))
       else
-        (match walkTree inner (hiddenRemoveFn hs inner) fuel s1 [] name with
+        (match walkTree (fsiWalkOps inner) (hiddenRemoveFn hs inner) fuel s1 [] name with
          | ((s2, _), some e) => (s2, .error e)
          | ((s2, dirs), none) => hiddenRemoveDirs hs inner s2 (sortMost dirs))
     | (s1, .ok _) => (s1, .error .other)
